@@ -609,6 +609,25 @@ def check(run, prog, tier):
             if op in ("==", "!=") and k and strip(l).get("k") == "Ref" and (strip(l).get("t") or "") == "char":
                 tgt = f.blocks[bid].succ[0 if op == "==" else 1]
                 groups.setdefault(tgt, set()).add(k)
+        # the same table written as `switch (c) { case K1: case K2: ... escape ... }`: labels that fall through to one block
+        for bid in sorted(f.reachable()):
+            blk = f.blocks[bid]
+            t2 = blk.term or {}
+            if t2.get("k") != "SwitchStmt":
+                continue
+            cond2 = t2.get("cond") or (blk.el[-1] if blk.el else None)
+            if cond2 is None or strip(cond2).get("k") != "Ref" or (strip(cond2).get("t") or "") != "char":
+                continue
+            for sx in blk.succ:
+                lab = f.blocks[sx].label if sx is not None else None
+                if not (lab and lab.get("k") == "case" and lab.get("lo")):
+                    continue
+                tgt = sx
+                hops = 0
+                while not f.blocks[tgt].el and len(f.blocks[tgt].live_succ()) == 1 and hops < 8:
+                    tgt = f.blocks[tgt].live_succ()[0]
+                    hops += 1
+                groups.setdefault(tgt, set()).add(lab["lo"])
         best = None
         for tgt, ks in groups.items():
             if ord("\\") in ks and (best is None or len(ks) > len(best[0])):
